@@ -6,6 +6,8 @@ import (
 	"testing"
 	"time"
 
+	"pgregory.net/rapid"
+
 	"verif/internal/hx"
 )
 
@@ -29,7 +31,7 @@ func propC03(h History) error {
 	bk := newBook(h)
 	var hi uint32
 	hiSet := false
-	lossy, late, seam := false, false, false
+	lossy, late, seam, nested := false, false, false, false
 	for i, o := range h.Ops {
 		st := &tr.Steps[i]
 		if isPush(o) && st.Err == nil {
@@ -37,6 +39,13 @@ func propC03(h History) error {
 		}
 		var expected, got uint64
 		for _, cb := range st.CBs {
+			if cb.NestedPush {
+				// a push the Stream made from inside a callback: a push like any other, and what it leads to is
+				// part of the call of the history that is in progress
+				bk.notePush(cb.PushID, Op{K: opPush, Seq: cb.PushSeq, Typ: cb.PushTyp}, st)
+				nested = true
+				continue
+			}
 			if cb.IsEv {
 				if len(cb.Seqs) == 0 {
 					return fmt.Errorf("op %d: empty ReassemblyComplete", i)
@@ -86,6 +95,9 @@ func propC03(h History) error {
 	if seam {
 		hC03.Class("history-crossing-seam")
 	}
+	if nested {
+		hC03.Class("history-with-push-from-callback")
+	}
 	if lossy || late || seam {
 		hC03.NonTrivial(fpHistory(h), h.Describe)
 	}
@@ -95,7 +107,23 @@ func propC03(h History) error {
 func TestC03Regress(t *testing.T) { hx.Regress(t, hC03, "TestC03", propC03) }
 
 func TestC03(t *testing.T) {
-	hx.Check(t, hC03, "TestC03", func(rt *rapidT) History { return genHistory(rt, c03Cfg) }, propC03)
+	hx.Check(t, hC03, "TestC03", func(rt *rapidT) History {
+		h := genHistory(rt, c03Cfg)
+		// one history in three: the Stream pushes from inside EventsLost a record that completes a later event at once (the gap
+		// between the events around it is counted like any other; by then the events of the call that reported the gap have
+		// all been handed over). Only where the new sequence numbers stay inside
+		// the ordering window.
+		var hi uint32
+		for _, o := range h.Ops {
+			if isPush(o) && h.off(o.Seq) > hi {
+				hi = h.off(o.Seq)
+			}
+		}
+		if re := rapid.SampledFrom([]string{"", "lostpushdone", ""}).Draw(rt, "reenter"); hi+4000 < 1<<24-1 {
+			h.Reenter = re
+		}
+		return h
+	}, propC03)
 }
 
 // TestC03Large: see heldBackHistories.
